@@ -50,6 +50,28 @@ func init() {
 			{Name: "callback reports the registered connection instead of the removed one", ExpectRule: "C32.R3", ExpectKey: "OnPeerDisconnect", Edits: []Edit{
 				{File: f, Old: "\tif removed && m.cfg.OnPeerDisconnect != nil {\n\t\tm.cfg.OnPeerDisconnect(conn, err)", New: "\tif removed && m.cfg.OnPeerDisconnect != nil {\n\t\tm.cfg.OnPeerDisconnect(m.GetPeer(conn.RemoteID), err)"},
 			}},
+			// round 2
+			{Name: "keepalive failure tears the peer down by id", ExpectRule: "C32.R3", ExpectKey: "keepaliveLoop tears down by id", Edits: []Edit{
+				{File: f, Old: "\t\t\t\tconn.Close()\n\t\t\t\tm.handleDisconnect(conn, fmt.Errorf(\"keepalive timeout\"))\n", New: "\t\t\t\tm.Disconnect(conn.RemoteID)\n"},
+			}},
+			{Name: "read loop tears the peer down by id through a wrapper", ExpectRule: "C32.R3", ExpectKey: "readLoop tears down by id", Edits: []Edit{
+				{File: f, Old: "\t\t\tconn.Close()\n\t\t\tm.handleDisconnect(conn, err)\n\t\t\treturn\n\t\t}\n\n\t\tconn.updateActivity()", New: "\t\t\tm.dropPeer(conn.RemoteID)\n\t\t\treturn\n\t\t}\n\n\t\tconn.updateActivity()"},
+				{File: f, Old: "// handleReconnect attempts to reconnect to a peer.", New: "func (m *Manager) dropPeer(id identity.AgentID) { _ = m.Disconnect(id) }\n\n// handleReconnect attempts to reconnect to a peer."},
+			}},
+			{Name: "duplicate check under the read lock, insert under the write lock without re-check", ExpectRule: "C32.R1", Edits: []Edit{
+				{File: f, Old: "func (m *Manager) registerConnection(conn *Connection) {\n\tm.mu.Lock()\n", New: "func (m *Manager) registerConnection(conn *Connection) {\n\tm.mu.RLock()\n\t_, exists := m.peers[conn.RemoteID]\n\tm.mu.RUnlock()\n\tif exists {\n\t\tconn.Close()\n\t\treturn\n\t}\n\tm.mu.Lock()\n"},
+				{File: f, Old: "\tif _, ok := m.peers[conn.RemoteID]; ok {\n\t\t// Keep the existing connection, close the new one\n\t\t// This prevents connection churn when both sides connect simultaneously\n\t\tm.mu.Unlock()\n\t\tconn.Close()\n\t\treturn\n\t}\n", New: ""},
+			}},
+			{Name: "identity test under the read lock, delete under the write lock", ExpectRule: "C32.R3", ExpectKey: "delete", Edits: []Edit{
+				{File: f, Old: "func (m *Manager) handleDisconnect(conn *Connection, err error) {\n\tm.mu.Lock()\n", New: "func (m *Manager) handleDisconnect(conn *Connection, err error) {\n\tm.mu.RLock()\n\tmine := m.peers[conn.RemoteID] == conn\n\tm.mu.RUnlock()\n\tm.mu.Lock()\n"},
+				{File: f, Old: "\tif existing, ok := m.peers[conn.RemoteID]; ok && existing == conn {\n\t\tdelete(m.peers, conn.RemoteID)", New: "\tif mine {\n\t\tdelete(m.peers, conn.RemoteID)"},
+			}},
+			{Name: "teardown compares peer ids instead of connection identity", ExpectRule: "C32.R3", ExpectKey: "delete", Edits: []Edit{
+				{File: f, Old: "if existing, ok := m.peers[conn.RemoteID]; ok && existing == conn {", New: "if existing, ok := m.peers[conn.RemoteID]; ok && existing.RemoteID == conn.RemoteID {"},
+			}},
+			{Name: "rewrite: by-id disconnect of a connection that was just looked up by that id", Edits: []Edit{
+				{File: f, Old: "// handleReconnect attempts to reconnect to a peer.", New: "func (m *Manager) dropIfIdle(id identity.AgentID) {\n\tif c := m.GetPeer(id); c != nil && c.State() != StateConnected {\n\t\t_ = m.Disconnect(id)\n\t}\n}\n\n// handleReconnect attempts to reconnect to a peer."},
+			}},
 			// rewrites
 			{Name: "rewrite: stale teardown returns early, delete dominates the callback", Edits: []Edit{
 				{File: f, Old: "\tremoved := false\n\tif existing, ok := m.peers[conn.RemoteID]; ok && existing == conn {\n\t\tdelete(m.peers, conn.RemoteID)\n\t\tremoved = true\n\t}\n", New: "\tremoved := true\n\tif existing := m.peers[conn.RemoteID]; conn != existing {\n\t\tm.mu.Unlock()\n\t\treturn\n\t}\n\tdelete(m.peers, conn.RemoteID)\n"},
@@ -389,6 +411,10 @@ func runC32(p *kit.Program, r *kit.Report) {
 			_, held := kit.Locks(acc.Fn).HeldAt(acc.Instr, cx.mu)
 			r.Decide(held, "C32.R3", key, pos, "delete by peer id (not on behalf of a reporting connection), under the manager mutex",
 				"peers is modified without holding the manager mutex")
+			// A by-id teardown acts on whatever connection is registered now. It must not be invoked
+			// on behalf of one particular connection (id taken from that connection): that is a
+			// teardown without the identity check, one call away.
+			cx.byIDCallers(acc.Fn, acc.Key, kit.FuncName(acc.Fn), 0, map[*ssa.Function]bool{})
 			continue
 		}
 		var lk *ssa.Lookup
@@ -575,6 +601,44 @@ func runC32(p *kit.Program, r *kit.Report) {
 	}
 	r.Count("disconnect_notification_sites", nDisc)
 	r.Require(nDisc >= 1, "floor: no invocation of ManagerConfig.OnPeerDisconnect found in internal/peer")
+}
+
+// byIDCallers: fn removes the registration stored under `key`; if key is a parameter of fn, every
+// call site that passes `X.RemoteID` of a connection X is a teardown of "whatever is registered
+// under X's id" on behalf of X.
+func (cx *c32ctx) byIDCallers(fn *ssa.Function, key ssa.Value, via string, depth int, seen map[*ssa.Function]bool) {
+	if depth > 2 || fn.Parent() != nil || seen[fn] {
+		return
+	}
+	seen[fn] = true
+	idx := -1
+	for i, prm := range fn.Params {
+		if ssa.Value(prm) == key {
+			idx = i
+		}
+	}
+	if idx < 0 {
+		return
+	}
+	n := 0
+	for _, c := range cx.p.StaticCallers(fn) {
+		args := c.Common().Args
+		if idx >= len(args) {
+			continue
+		}
+		a := args[idx]
+		if kf, kbase := kit.LoadedField(a); kf == cx.remoteID && kbase != nil && c32IsConnPtr(kbase.Type(), cx.connT) {
+			// the id of a connection just looked up under that very id is the by-id contract itself
+			if l, li := cx.lookupOf(kbase); l != nil && li == 0 {
+				continue
+			}
+			n++
+			cx.r.Violation("C32.R3", fmt.Sprintf("%s tears down by id via %s #%d", kit.FuncName(c.Parent()), via, n), cx.p.Pos(c.Pos()),
+				"the registration is removed by peer id on behalf of one particular connection (id taken from that connection) without the test `peers[id] == that connection`: when that connection is stale, the peer's live connection is unregistered, closed and reported as disconnected")
+			continue
+		}
+		cx.byIDCallers(c.Parent(), a, via, depth+1, seen)
+	}
 }
 
 func c32accOf(list []kit.FieldAccess, in ssa.Instruction) *kit.FieldAccess {
